@@ -1,4 +1,5 @@
-"""Child interpreter of the C14 hash-seed clause: runs serialised calls, prints their results as JSON."""
+"""Child interpreter of the C14 hash-seed / call-order clause: runs serialised calls in the requested order, prints results as JSON
+(indexed by the position of the call in the file, whatever the execution order was)."""
 import json
 import sys
 
@@ -8,12 +9,22 @@ from vf.props.c14 import run_job
 
 def main():
     cases = json.load(open(sys.argv[1]))
-    out = []
-    for c in cases:
+    order = sys.argv[2] if len(sys.argv) > 2 else "forward"
+    n = len(cases)
+    idx = list(range(n))
+    if order == "reverse":
+        idx.reverse()
+    elif order == "rotated":
+        idx = idx[n // 2:] + idx[:n // 2]
+    elif order == "evens-first":
+        idx = idx[0::2] + idx[1::2]
+    out = [None] * n
+    for k in idx:
+        c = cases[k]
         try:
-            out.append(run_job(mk_model(c["cfg"]), c["job"]))
+            out[k] = run_job(mk_model(c["cfg"]), c["job"])
         except Exception as e:  # noqa: BLE001
-            out.append({"raised": type(e).__name__})
+            out[k] = {"raised": type(e).__name__}
     json.dump(out, sys.stdout)
 
 
